@@ -734,3 +734,56 @@ def rule_taken_reaches(ctx, rule, fv, who, is_target, what):
               "the %s: that record produces no output (its row / k-mers / runs are lost)" % what, where)
     ctx.check(rule, "%s:worker_exits" % who, leave is None, "workers leave only before taking or on None",
               "a worker leaves its loop after taking a record that was not None", line_of(loop))
+
+
+
+class Renamed:
+    """Context wrapper: run another property's rule functions and report them under this property's
+    rule ids (`rename(rule) -> new rule id or None to drop`). Used where a property's statement depends on
+    a mechanism whose rules live in another module, so that each check is self-sufficient."""
+
+    def __init__(self, ctx, rename):
+        self._c = ctx
+        self._r = rename
+        self.prog = ctx.prog
+        self.notes = ctx.notes
+        self.tier = getattr(ctx, "tier", "quick")
+        self.prop = getattr(ctx, "prop", "")
+
+    def view(self, *a, **k):
+        return self._c.view(*a, **k)
+
+    def all_views(self, *a, **k):
+        return self._c.all_views(*a, **k)
+
+    def need(self, rule, path, unit=None):
+        return self._c.need(self._r(rule) or rule, path, unit)
+
+    def ok(self, rule, *a, **k):
+        r = self._r(rule)
+        if r:
+            self._c.ok(r, *a, **k)
+
+    def fail(self, rule, *a, **k):
+        r = self._r(rule)
+        if r:
+            self._c.fail(r, *a, **k)
+
+    def check(self, rule, key, cond, okd, faild, sp=None, nontrivial=True):
+        r = self._r(rule)
+        if r:
+            return self._c.check(r, key, cond, okd, faild, sp, nontrivial)
+        return cond
+
+    def floor(self, rule, n):
+        r = self._r(rule)
+        if r:
+            self._c.floor(r, n)
+
+
+def dep(ctx, prop, tag):
+    """rename rules `Cxx.Y` of a dependency to `<prop>.<tag>:Y`-style ids, e.g. C03 using C02's codec rules -> C03.dC02.S1"""
+    def rn(rule):
+        parts = rule.split(".", 1)
+        return "%s.d%s.%s" % (prop, parts[0], parts[1] if len(parts) > 1 else "")
+    return Renamed(ctx, rn)
